@@ -68,7 +68,7 @@ REF = {
     "custom_falsy": lambda a, b, s, e, n: a <= s <= b + 1,
     "no_criteria": lambda a, b, s, e, n: True,         # nothing to object: everything joins the first run
 }
-PATTERNS = ("uniform", "last_strand", "last_type", "last_seqid")
+PATTERNS = ("uniform", "last_strand", "last_type", "last_seqid", "comma_seqid")
 HISTORIES = ("fresh", "premerged_exact", "twice", "outputs", "after_children_bp")
 
 
@@ -195,9 +195,14 @@ def body_merge(ch, ctx):
     pattern = ch.choose("pattern", PATTERNS)
     history = ch.choose("history", HISTORIES)
     n = len(ms)
+    if pattern == "comma_seqid" and n > 2:
+        # all features on one sequence whose NAME holds a comma; only demanded for runs of at most two members (the accumulated
+        # feature's seqid is a comma-joined list, so with a third member an ambiguous field would be consulted)
+        ctx.outcome("comma-seqid-skipped")
+        return
     rows = []
     for i, (s, e) in enumerate(ms):
-        sq, st, ft = "c1", "+", "exon"
+        sq, st, ft = ("s1,s2" if pattern == "comma_seqid" else "c1"), "+", "exon"
         if i == n - 1 and n > 1:
             if pattern == "last_strand":
                 st = "-"
@@ -277,8 +282,9 @@ def body_db(ch, ctx):
     ms = ch.choose("multiset", m3[i0:i1])
     op = ch.choose("operation", ("merge_all", "merge_all_exclude", "children_bp", "children_bp_merge", "merge_all_thr2", "merge_all_exact"))
     file_order = ch.choose("file_order", ("ascending", "descending"))
-    lines = ["c1\ts\tmRNA\t1\t9\t.\t+\t.\tID=t1"]
-    exon_lines = ["c1\ts\texon\t%d\t%d\t.\t+\t.\tID=x%d;Parent=t1" % (s, e, i) for i, (s, e) in enumerate(ms)]
+    # every exon names both its transcript and the gene: it is a child of g1 at level 1 AND (through t1) at level 2
+    lines = ["c1\ts\tgene\t1\t9\t.\t+\t.\tID=g1", "c1\ts\tmRNA\t1\t9\t.\t+\t.\tID=t1;Parent=g1"]
+    exon_lines = ["c1\ts\texon\t%d\t%d\t.\t+\t.\tID=x%d;Parent=t1,g1" % (s, e, i) for i, (s, e) in enumerate(ms)]
     lines += exon_lines if file_order == "ascending" else exon_lines[::-1]
     wd = ctx.fresh_dir()
     path = dbutil.write_text(wd, "in.gff", "\n".join(lines) + "\n")
@@ -300,6 +306,8 @@ def body_db(ch, ctx):
         ctx.check(positional == got, "children_bp-positional-call-differs", sig, keyword=got, positional=positional)
         exp = len({p for s, e in ms for p in range(s, e + 1)}) if merge else sum(e - s + 1 for s, e in ms)
         ctx.check(got == exp, "children_bp-differs", sig, intervals=list(ms), got=got, expected=exp)
+        via_gene = db.children_bp("g1", child_featuretype="exon", merge=merge)       # related at two levels: still each exon once
+        ctx.check(via_gene == exp, "children_bp-differs", dict(sig, parent="related-at-two-levels"), intervals=list(ms), got=via_gene, expected=exp)
         ctx.check(dbutil.canon(db) == before, "database-modified-by-children_bp", sig)
         return
     excl = op.endswith("exclude")
@@ -315,7 +323,11 @@ def body_db(ch, ctx):
     ctx.check(len(res) == len(multi), "merge_all-result-count-differs", sig, intervals=list(ms), got=len(res), expected=len(multi))
     c = dbutil.canon(db)
     ids = [r[0] for r in c["features"]]
-    new = [r for r in c["features"] if r[0] not in {"t1"} | {"x%d" % i for i in range(len(ms))}]
+    on_disk = dbutil.canon(os.path.join(wd, "o.db"))          # through a second connection: what a reopening process would see
+    ctx.check(dbutil.content_only(on_disk) == dbutil.content_only(c), "merge_all-result-not-committed", sig, intervals=list(ms),
+              live=[r[0] for r in c["features"]], on_disk=[r[0] for r in on_disk["features"]],
+              live_relations=len(c["relations"]), on_disk_relations=len(on_disk["relations"]))
+    new = [r for r in c["features"] if r[0] not in {"t1", "g1"} | {"x%d" % i for i in range(len(ms))}]
     exp_ext = sorted((min(rows[j][3] for j in r), max(rows[j][4] for j in r)) for r in multi)
     ctx.check(sorted((r[4], r[5]) for r in new) == exp_ext, "merge_all-stored-extents-differ", sig, intervals=list(ms),
               got=sorted((r[4], r[5]) for r in new), expected=exp_ext)
